@@ -391,34 +391,10 @@ bursts:
 			}(i, cs)
 		}
 		wg.Wait()
-		// A connection of burst b >= 1 dialled before last_close + idle must be served.
+		// A connection that got no answer means the listener is gone; whether it
+		// was entitled to be gone is judged over the whole timeline below.
 		for _, rec := range recs {
 			if rec.DialErr != "" || rec.FirstResp == 0 {
-				prev := int64(0)
-				s.mu.Lock()
-				for _, c := range s.conns {
-					if c.Burst < b && c.CloseCall > prev {
-						prev = c.CloseCall
-					}
-				}
-				s.mu.Unlock()
-				deadline := prev + int64(s.idle)
-				// The failure was observed at FailedAt, so the listener was gone
-				// no later than that; DialStart would not be a sound bound (the
-				// connect itself may have been scheduled much later).
-				failedAt := rec.FailedAt
-				switch {
-				case strings.Contains(rec.DialErr+rec.CallErr, "timeout"):
-					r.Inconclusive(fmt.Sprintf("schedule %d: client watchdog fired on connection %s (%s%s)", idx, rec.ID, rec.DialErr, rec.CallErr))
-				case b == 0 && s.returned.Load() == 0:
-					r.Violation("connection-refused-while-listening:"+sp.Transport, fmt.Sprintf("connection %s got no answer (%s%s) although the listener was bound and within its start-up grace", rec.ID, rec.DialErr, rec.CallErr), witness(nil))
-				case b > 0 && failedAt < deadline-int64(2*time.Millisecond) && otherOpen(s, rec, failedAt) == false:
-					r.Violation("listener-stopped-before-idle-period:"+sp.Transport, fmt.Sprintf("connection %s had already failed %.1f ms before last_close+idleTimeout (%s%s)", rec.ID, float64(deadline-failedAt)/1e6, rec.DialErr, rec.CallErr), witness(nil))
-				case b > 0 && failedAt < deadline:
-					r.Inconclusive(fmt.Sprintf("schedule %d: connection dialled within 2 ms of the idle deadline got no answer", idx))
-				default:
-					r.Class("gap-overshot-idle-timeout(listener legitimately gone)")
-				}
 				stoppedEarly = true
 			}
 		}
@@ -496,38 +472,42 @@ bursts:
 		open = append(open, iv{c.FirstResp, to})
 	}
 	sort.Slice(open, func(i, j int) bool { return open[i].from < open[j].from })
-	// Largest window inside [bound, ret] with no demonstrably open connection
-	// that starts at a close (windows starting at bind time need the 60 s
-	// start-up grace instead).
-	var best int64 = -1
-	cover := boundAt
-	startGap := int64(0)
-	first := true
-	for _, o := range open {
-		if o.from > ret {
-			break
+	// windowBefore returns the largest window inside [bound, x] with no
+	// demonstrably open connection that starts at a close (best), and the
+	// window that starts at bind time (startGap; it needs the 60 s start-up
+	// grace instead of idleTimeout).
+	windowBefore := func(x int64) (best, startGap int64) {
+		best = -1
+		cover := boundAt
+		first := true
+		for _, o := range open {
+			if o.from > x {
+				break
+			}
+			if o.from > cover {
+				g := o.from - cover
+				if first {
+					startGap = g
+				} else if g > best {
+					best = g
+				}
+			}
+			first = false
+			if o.to > cover {
+				cover = o.to
+			}
 		}
-		if o.from > cover {
-			g := o.from - cover
+		if x > cover {
+			g := x - cover
 			if first {
 				startGap = g
 			} else if g > best {
 				best = g
 			}
 		}
-		first = false
-		if o.to > cover {
-			cover = o.to
-		}
+		return best, startGap
 	}
-	if ret > cover {
-		g := ret - cover
-		if first {
-			startGap = g
-		} else if g > best {
-			best = g
-		}
-	}
+	best, startGap := windowBefore(ret)
 	grace := int64(s.idle)
 	if grace < int64(60*time.Second) {
 		grace = int64(60 * time.Second)
@@ -553,6 +533,26 @@ bursts:
 		}
 	}
 	r.Count("socket_mode_samples_while_serving", int64(nSamples))
+	// A connection that had demonstrably failed at time x proves the listener
+	// was gone at x: the same window must exist before x.
+	for _, c := range conns {
+		if c.FirstResp != 0 || c.FailedAt == 0 {
+			continue
+		}
+		if strings.Contains(c.DialErr+c.CallErr, "timeout") {
+			r.Inconclusive(fmt.Sprintf("schedule %d: client watchdog fired on connection %s (%s%s)", idx, c.ID, c.DialErr, c.CallErr))
+			continue
+		}
+		fb, fs := windowBefore(c.FailedAt)
+		switch {
+		case fb >= int64(s.idle) || fs >= grace:
+			r.Class("connection-refused-after-idle-window(legitimate)")
+		case fb >= int64(s.idle)-int64(2*time.Millisecond):
+			r.Inconclusive(fmt.Sprintf("schedule %d: connection failed with the largest idle window %.3f ms within 2 ms of idleTimeout %d ms", idx, float64(fb)/1e6, sp.IdleMs))
+		default:
+			r.Violation("listener-stopped-before-idle-period:"+sp.Transport, fmt.Sprintf("connection %s had failed at %.1f ms (%s%s) but the longest window without an open connection before that is %.1f ms < idleTimeout %d ms", c.ID, float64(c.FailedAt)/1e6, c.DialErr, c.CallErr, float64(fb)/1e6, sp.IdleMs), witness(map[string]any{"connection": c.ID}))
+		}
+	}
 	if sp.Transport == "unix" {
 		if m := s.modeBad.Load(); m != nil {
 			r.Violation("socket-file-mode:"+strings.SplitN(m.(string), ":", 2)[0], "unix socket file is not an owner-only socket: "+m.(string), witness(nil))
@@ -600,19 +600,6 @@ bursts:
 	}
 }
 
-// otherOpen reports whether some other connection was demonstrably open at t
-// (then the idle clock had not even started and the deadline is later still).
-func otherOpen(s *sched, self *connRec, t int64) bool {
-	s.mu.Lock()
-	defer s.mu.Unlock()
-	for _, c := range s.conns {
-		if c != self && c.FirstResp != 0 && c.FirstResp <= t && (c.CloseCall == 0 || c.CloseCall > t) {
-			return true
-		}
-	}
-	return false
-}
-
 func main() {
 	r := mon.Start("C42")
 	defer r.Finish()
@@ -626,7 +613,7 @@ func main() {
 		r.Fatal("mkdtemp: %v", err)
 	}
 	defer os.RemoveAll(tmpdir)
-	n := r.N(36, 1200)
+	n := r.N(36, 3000)
 	par := r.N(6, 12)
 	ch := make(chan int)
 	var wg sync.WaitGroup
